@@ -538,7 +538,7 @@ def inventory_obligations(run, inv, sums):
 
 
 def check(run):
-    n = 30 if run.tier == "quick" else 40
+    n = 20 if run.tier == "quick" else 40
     t0 = time.time()
     translate_templates(run)
     run.log("templates translated and analysed in %.1fs" % (time.time() - t0))
